@@ -224,7 +224,9 @@ func SameLoad(a, b ssa.Value) bool {
 	}, Avoid: func(in ssa.Instruction) bool { return in == ssa.Instruction(ib) }}
 	s.After(ia)
 	for _, c := range cl {
-		t := &Search{Target: func(in ssa.Instruction) bool { return in == ssa.Instruction(ib) }}
+		// a path that re-executes a re-establishes the equivalence, so avoid a
+		t := &Search{Target: func(in ssa.Instruction) bool { return in == ssa.Instruction(ib) },
+			Avoid: func(in ssa.Instruction) bool { return in == ssa.Instruction(ia) }}
 		if t.After(c) != nil {
 			return false
 		}
